@@ -289,6 +289,9 @@ struct Ctx {
     sh: Rc<Shared>,
     /// the parent answered Disable in this dispatch
     host_self_disabled: bool,
+    /// a remove() made while the parent is unregistered waits for the parent's register()
+    pending_remove: bool,
+    parent_unregistered: bool,
     allow_host_disable: bool,
     children: Vec<MChild>,
     tracks: Vec<Rc<Track>>,
@@ -319,6 +322,13 @@ impl Ctx {
             tape: vec![],
             decoded: vec![],
         });
+    }
+
+    fn violate_props(&mut self, props: &[&str], clause: &str, feats: &[(&str, String)], msg: String) {
+        self.violate(clause, feats, msg);
+        if let Some(v) = self.violations.last_mut() {
+            v.props = props.iter().map(|p| p.to_string()).collect();
+        }
     }
 
     fn new_child(&mut self, timer: bool) -> Child {
@@ -414,6 +424,8 @@ fn run_one(quick: bool, verbose: bool) -> Outcome {
         h: el.handle(),
         sh: sh.clone(),
         host_self_disabled: false,
+        pending_remove: false,
+        parent_unregistered: false,
         allow_host_disable: true,
         children: vec![],
         tracks: vec![],
@@ -482,8 +494,18 @@ fn run_one(quick: bool, verbose: bool) -> Outcome {
                 continue;
             }
             if c.self_disabled && c.current {
-                // the statement does not say whether a later parent register() re-registers a child
-                // that disabled itself: follow the implementation
+                // Whether a later parent register() (disable + enable of the parent) brings back a
+                // child that disabled itself is left to the implementation (the model follows it at
+                // HostEnable). Anything short of that - a mere re-registration of the parent - must
+                // not: the child asked to be disabled and nobody enabled anything (C07).
+                if tr.registered.get() && host_alive && host_enabled && !sh.parent_protocol_broken.get() {
+                    ctx.violate_props(
+                        &["C18", "C07"],
+                        "disabled-child-registered-again",
+                        &[],
+                        format!("{when}: child {i} returned Disable and was unregistered, but it is registered again although the parent was only re-registered, never enabled"),
+                    );
+                }
                 continue;
             }
             if tr.registered.get() != want {
@@ -531,7 +553,9 @@ fn run_one(quick: bool, verbose: bool) -> Outcome {
                         }
                     }
                 }
-                if host_enabled {
+                // also while the parent is disabled (unregistered): the change is then followed
+                // by the parent's register() at enable(), which is the re-registration
+                if host_enabled || ch != Change::Map {
                     menu.push(TOp::Outside(ch));
                 }
             }
@@ -558,6 +582,7 @@ fn run_one(quick: bool, verbose: bool) -> Outcome {
                 if let Some(c) = ctx.current() {
                     ctx.children[c].current = false;
                     ctx.children[c].gone = true;
+                    ctx.pending_remove = ctx.parent_unregistered;
                 }
             }
             Change::Replace(_) => {
@@ -567,6 +592,11 @@ fn run_one(quick: bool, verbose: bool) -> Outcome {
                     if let Some(n) = newc {
                         ctx.children[n].current = true;
                     }
+                } else if let (Some(n), true) = (newc, ctx.pending_remove) {
+                    // the removal has not been carried out yet (no registration call since): the
+                    // wrapper still holds the removed child, and replace() swaps the newcomer in
+                    ctx.children[n].current = true;
+                    ctx.pending_remove = false;
                 } else if let Some(n) = newc {
                     // replace() on an empty wrapper does nothing: the new source is dropped
                     ctx.children[n].gone = true;
@@ -649,6 +679,7 @@ fn run_one(quick: bool, verbose: bool) -> Outcome {
                 }
             }
             TOp::Outside(ch) => {
+                ctx.parent_unregistered = !host_enabled;
                 let mut newc = None;
                 if let Change::Replace(t) = ch {
                     let c = ctx.new_child(t);
@@ -660,14 +691,14 @@ fn run_one(quick: bool, verbose: bool) -> Outcome {
                     apply_change(&mut host.ts, ch, &sh);
                 }
                 model_change(&mut ctx, ch, newc);
-                if ch != Change::Map {
+                if ch != Change::Map && host_enabled {
                     // documented protocol: re-register after each change
                     if let Err(e) = ctx.h.update(&token) {
                         errors_seen += 1;
                         ctx.violate("update-error", &[], format!("update() after {ch:?} failed: {e:?}"));
                     }
                 }
-                clauses.push("change-from-outside");
+                clauses.push(if host_enabled { "change-from-outside" } else { "change-while-parent-disabled" });
             }
             TOp::HostDisable => {
                 if let Err(e) = ctx.h.disable(&token) {
@@ -683,6 +714,8 @@ fn run_one(quick: bool, verbose: bool) -> Outcome {
                     ctx.violate("host-enable-error", &[], format!("enable() of the parent failed: {e:?}"));
                 }
                 host_enabled = true;
+                ctx.pending_remove = false;
+                ctx.parent_unregistered = false;
                 // a child that had disabled itself: re-registration by the parent's register() is
                 // implementation-defined; the model follows what happened
                 if let Some(c) = ctx.current() {
